@@ -72,7 +72,7 @@ Proof.
     all: destruct s as [aux0 token0 canrun0 running0 terminated0 jobcount0 jobs0 timers0 phase0 background0 batch0 tph0 wakers0 pending0
                    spc0 natural0 executed0 accepted0 refused0 cbs0];
       cbn in *; unfold send_token, offer, dec_bg in H; cbn in H.
-    all: timeout 60 (split_matches H; inv_some; cbn; first [left; split; reflexivity | right; left; discriminate | right; right; discriminate]).
+    all: timeout 1800 (split_matches H; inv_some; cbn; first [left; split; reflexivity | right; left; discriminate | right; right; discriminate]).
   - assert (D : forall s0 m, deliver s0 m = Some s' -> (cbs s' = cbs s0 /\ executed s' = executed s0) \/ tph s0 <> TNone).
     { intros s0 m. unfold deliver. destruct (tph s0); try (intros _; right; discriminate).
       destruct (phase s0); try discriminate. destruct (pending s0); try discriminate. intro H0; inversion H0; subst. left; split; reflexivity. }
@@ -132,7 +132,7 @@ Proof.
     all: destruct s as [aux0 token0 canrun0 running0 terminated0 jobcount0 jobs0 timers0 phase0 background0 batch0 tph0 wakers0 pending0
                    spc0 natural0 executed0 accepted0 refused0 cbs0];
       cbn in *; unfold send_token, offer, dec_bg in H; cbn in H.
-    all: timeout 60 (split_matches H; inv_some; cbn in *; try discriminate; auto).
+    all: timeout 1800 (split_matches H; inv_some; cbn in *; try discriminate; auto).
   - assert (P : phase s' = phase s); [|rewrite P in Hs; right; exact Hs].
     assert (D : forall s0 m x, deliver s0 m = Some x -> phase x = phase s0).
     { intros s0 m x. unfold deliver.
@@ -390,7 +390,7 @@ Proof.
   all: destruct s as [aux0 token0 canrun0 running0 terminated0 jobcount0 jobs0 timers0 phase0 background0 batch0 tph0 wakers0 pending0
                    spc0 natural0 executed0 accepted0 refused0 cbs0];
       cbn in *; unfold send_token, offer, dec_bg in H; cbn in H.
-  all: timeout 60 (split_matches H; inv_some; cbn; congruence).
+  all: timeout 1800 (split_matches H; inv_some; cbn; congruence).
 Qed.
 
 (* after a restart the loop accepts work again *)
